@@ -462,6 +462,11 @@ def do_step(w: World, step: dict) -> None:
         ei = step["env"]
         if w.plan["envs"][ei].get("default_global"):
             return
+        if w.plan["envs"][ei]["loader"].startswith("c") and step["what"] in ("del_filter", "trim"):
+            # parse-time configuration: a caching loader legitimately keeps templates parsed
+            # under the earlier configuration, a fresh one re-parses them (not a C09 matter)
+            w.count("config_skipped_parse_time_on_caching_loader")
+            return
         before = w.probe_all()
         apply_config(w.shared.envs[ei], step)
         w.env_events[ei].append(("config", {kk: vv for kk, vv in step.items() if kk not in ("op", "id", "env")}))
